@@ -9,7 +9,8 @@ import os, sys, json, tempfile, shutil, itertools, hashlib
 import vlib, e2e, sync_e2e
 from sync_e2e import T0
 
-THEOREMS = ['C01_mirror', 'C01_mirror_executable', 'C01_link_text', 'C01_utf8_text_is_in_domain', 'C01_table', 'C01_mirror_unconditional', 'C01_mirror_walked', 'C01_walked_listing_exists']
+THEOREMS = ['C01_mirror', 'C01_mirror_executable', 'C01_link_text', 'C01_utf8_text_is_in_domain', 'C01_table', 'C01_mirror_unconditional', 'C01_mirror_walked', 'C01_walked_listing_exists',
+            'C01_spec_each_sync_mirrors', 'C01_spec_final_trees', 'C01_spec_stores_well_formed', 'C01_mirror_keeps_times_set']
 
 
 def components(text):
@@ -249,6 +250,9 @@ def check(run):
                 run.broke('correspondence', 'e2e-remote', json.dumps({'scenario': sc.to_json(), 'mismatch': o.mismatch})[:2500])
         run_table(run, binary, base)
         run_spellings(run, binary, base, rng, 30 if quick else 2000)
+        # spec files with several syncs over shared roots (A -> B, then B -> C, ...) against Model/SpecRun.v
+        import spec_e2e
+        spec_e2e.family(run, binary, jbin, base, 40 if quick else 2500, rng, 'C01')
     finally:
         shutil.rmtree(base, ignore_errors=True)
     return run.finish(search=None)
